@@ -110,6 +110,9 @@ structure FillPost (S : SchemaView) (re : Bool) (st : St) (cd : CD) (st' : St) (
   outs : noErr → OutNew st st' (fun f => f.vid ∈ cdVids cd')
   /-- every newly recorded edge with an enum literal among its arguments is accounted for by `re` -/
   flag : ∀ e ∈ cd'.edges, e ∈ cd.edges ∨ (argsHaveEnum e.conn.arguments = true → re = true)
+  /-- without errors only the current component's output map changed, by entries that refer to
+  vertices of the component or of its folds -/
+  tops : noErr → TopNew st st' (fun f => f.vid ∈ cdVids cd')
 
 /-- The sites inputs can reach during the traversal: F-12, N-6, N-3; F-7 when (`r`) the part of the
 query being traversed contains a `@fold @transform … @transform`; N-2 when (`re`) it contains an
@@ -118,10 +121,9 @@ def FillSite (r re : Bool) (s : Site) : Prop := PostSite re s ∨ (s = .retransf
 
 theorem PostSite.mono {re re' : Bool} {s : Site} (h : PostSite re s) (he : re = true → re' = true) :
     PostSite re' s := by
-  rcases h with (h | ⟨h1, h2⟩) | h
-  · exact Or.inl (Or.inl h)
-  · exact Or.inl (Or.inr ⟨h1, he h2⟩)
-  · exact Or.inr h
+  rcases h with h | ⟨h1, h2⟩
+  · exact Or.inl h
+  · exact Or.inr ⟨h1, he h2⟩
 
 theorem FillSite.mono {r r' re re' : Bool} {s : Site} (h : FillSite r re s)
     (hr : r = true → r' = true) (he : re = true → re' = true) : FillSite r' re' s := by
@@ -167,7 +169,12 @@ theorem foldAfterFill_sat {S : SchemaView} (hS : ValidSchemaView S) {st1 : St} {
     rcases hr.flag e he with h | h
     · simp [CD.empty] at h
     · exact h
-  refine Sat.bind ((componentPost_sat hS hstep.inv hout_r hr.cdInv r.2.2 hflag).monoK
+  have htopc : r.2.2 = [] → ∀ o ∈ r.1.topMap, o.2.vid ∈ cdVids r.2.1 := by
+    intro h0 o ho
+    rcases (hr.tops h0).2 o ho with h | h
+    · simp [St.topMap, hfe_out] at h
+    · exact h
+  refine Sat.bind ((componentPost_sat hS hstep.inv hout_r hr.cdInv r.2.2 hflag htopc).monoK
     (fun _ h => Or.inl h)) fun c hc => ?_
   obtain ⟨hc_inv, hc_path, hc_vs, hc_nv, hc_ne, hc_pf, hc_go, hc_len, hc_err, hc_ok⟩ := hc
   have hnv : st1.nextVid ≤ c.1.nextVid := by rw [hc_nv, ← hfe_nv]; exact hstep.nextVid
@@ -181,12 +188,14 @@ theorem foldAfterFill_sat {S : SchemaView} (hS : ValidSchemaView S) {st1 : St} {
     have hne_errs : ¬ (e1 ++ es = []) := fun h => hes (List.append_eq_nil_iff.mp h).2
     refine ⟨⟨hc_inv, hvs, hnv, hne, ⟨[startVid] ++ ext, ?_, fun h => absurd h hne_errs⟩, ?_,
       fun h => absurd h hne_errs, hpf⟩, hcd.mono hnv hne, fun _ h => h, fun _ h => h,
-      fun h => absurd h hne_errs, fun _ h => Or.inl h⟩
+      fun h => absurd h hne_errs, fun _ h => Or.inl h, fun h => absurd h hne_errs⟩
     · rw [hc_path, hext, hfe_path, List.append_assoc]
     · show st1.outStack.length ≤ c.1.outStack.length
       omega
   · rename_i comp hok
-    obtain ⟨hfill, hlen, hvids⟩ := hc_ok comp hok
+    obtain ⟨hfill, hlen, hc_out, hvids⟩ := hc_ok comp hok
+    have hc_out1 : c.1.outStack = st1.outStack := by
+      rw [hc_out, (hr.tops hfill).1, hfe_out]; simp
     have hext0 : ext = [] := hexact hfill
     have hpath_c : c.1.path = st1.path ++ [startVid] := by
       rw [hc_path, hext, hext0, hfe_path]; simp
@@ -198,9 +207,9 @@ theorem foldAfterFill_sat {S : SchemaView} (hS : ValidSchemaView S) {st1 : St} {
     refine Sat.bind ((foldPost_sat hc_inv hout_c hpath_c hinv1.path_ne fg foldEid subName subAlias
       subHasOutput comp).monoK (fun s h => ?_)) fun f hf => ?_
     · rcases h with h | h
-      · exact Or.inl (Or.inl (Or.inl h))
+      · exact Or.inl (Or.inl h)
       · exact Or.inr h
-    obtain ⟨hf_inv, hf_path, hf_vs, hf_len, hf_nv, hf_ne, hf_pf, hf_new, hf_err, hf_ok⟩ := hf
+    obtain ⟨hf_inv, hf_path, hf_vs, hf_len, hf_nv, hf_ne, hf_pf, hf_new, hf_top, hf_err, hf_ok⟩ := hf
     have hstepf : ∀ p : Prop, St.Step st1 f.1 p := fun p =>
       ⟨hf_inv, hf_vs.trans hvs, Nat.le_trans hnv hf_nv, Nat.le_trans hne hf_ne,
        ⟨[], by simp [hf_path], fun _ => rfl⟩, by rw [hf_len, hlen_c]; exact Nat.le_refl _,
@@ -210,7 +219,7 @@ theorem foldAfterFill_sat {S : SchemaView} (hS : ValidSchemaView S) {st1 : St} {
       have hes := hf_err es herr
       have hne_errs : ¬ (e1 ++ es = []) := fun h => hes (List.append_eq_nil_iff.mp h).2
       exact ⟨hstepf _, hcd.mono (Nat.le_trans hnv hf_nv) (Nat.le_trans hne hf_ne), fun _ h => h,
-        fun _ h => h, fun h => absurd h hne_errs, fun _ h => Or.inl h⟩
+        fun _ h => h, fun h => absurd h hne_errs, fun _ h => Or.inl h, fun h => absurd h hne_errs⟩
     · rename_i fold hfold
       have hcomp := hf_ok fold hfold
       have hsub : ∀ x ∈ cdVids r.2.1, x ∈ cdVids { cd with folds := cd.folds ++ [fold] } := by
@@ -222,7 +231,7 @@ theorem foldAfterFill_sat {S : SchemaView} (hS : ValidSchemaView S) {st1 : St} {
         simp only [cdVids, collectVidsFolds_append, collectVidsFolds, List.append_nil,
           List.mem_append]
         right; right; exact hx
-      refine ⟨hstepf _, ?_, fun _ h => h, ?_, ?_, fun _ h => Or.inl h⟩
+      refine ⟨hstepf _, ?_, fun _ h => h, ?_, ?_, fun _ h => Or.inl h, ?_⟩
       · exact ⟨hcd.nodup, fun v hv => Nat.lt_of_lt_of_le (hcd.vidsLt v hv)
           (Nat.le_trans hnv hf_nv), fun e he => Nat.lt_of_lt_of_le (hcd.eidsLt e he)
           (Nat.le_trans hne hf_ne), hcd.edgesOk, hcd.propsOk⟩
@@ -245,11 +254,21 @@ theorem foldAfterFill_sat {S : SchemaView} (hS : ValidSchemaView S) {st1 : St} {
         apply hsub
         simp only [cdVids, List.mem_append]
         exact Or.inl hroot
+      · intro _
+        have h1 : TopNew st1 c.1 (fun f => f.vid ∈ cdVids { cd with folds := cd.folds ++ [fold] }) :=
+          TopNew.of_eq hc_out1 _
+        refine h1.trans hf_top (fun _ x => x) ?_
+        intro f' hf'
+        rw [hf']
+        apply hsub
+        simp only [cdVids, List.mem_append]
+        exact Or.inl hroot
 
 
 theorem FillPost.weaken {S : SchemaView} {re : Bool} {st st' : St} {cd cd' : CD} {p q : Prop}
     (h : FillPost S re st cd st' cd' p) (hq : q → p) : FillPost S re st cd st' cd' q :=
-  ⟨h.step.weaken hq, h.cdInv, h.verts, h.vids, fun x => h.outs (hq x), h.flag⟩
+  ⟨h.step.weaken hq, h.cdInv, h.verts, h.vids, fun x => h.outs (hq x), h.flag,
+   fun x => h.tops (hq x)⟩
 
 theorem FillPost.monoFlag {S : SchemaView} {re re' : Bool} {st st' : St} {cd cd' : CD} {p : Prop}
     (h : FillPost S re st cd st' cd' p) (he : re = true → re' = true) :
@@ -257,7 +276,7 @@ theorem FillPost.monoFlag {S : SchemaView} {re re' : Bool} {st st' : St} {cd cd'
   ⟨h.step, h.cdInv, h.verts, h.vids, h.outs, fun e he' => by
     rcases h.flag e he' with h' | h'
     · exact Or.inl h'
-    · exact Or.inr fun x => he (h' x)⟩
+    · exact Or.inr fun x => he (h' x), h.tops⟩
 
 theorem FillPost.trans {S : SchemaView} {re : Bool} {a b c : St} {cda cdb cdc : CD} {p q r : Prop}
     (h1 : FillPost S re a cda b cdb p) (h2 : FillPost S re b cdb c cdc q) (hr : r → p ∧ q) :
@@ -268,12 +287,13 @@ theorem FillPost.trans {S : SchemaView} {re : Bool} {a b c : St} {cda cdb cdc : 
    fun e he => by
     rcases h2.flag e he with h | h
     · exact h1.flag e h
-    · exact Or.inr h⟩
+    · exact Or.inr h,
+   fun x => (h1.tops (hr x).1).trans (h2.tops (hr x).2) (fun _ hf => h2.vids _ hf) (fun _ hf => hf)⟩
 
 theorem FillPost.refl {S : SchemaView} {re : Bool} {st : St} {cd : CD} (hinv : st.Inv)
     (hcd : CD.Inv S st cd) (p : Prop) : FillPost S re st cd st cd p :=
   ⟨St.Step.refl hinv p, hcd, fun _ h => h, fun _ h => h, fun _ => OutNew.refl _ _,
-   fun _ h => Or.inl h⟩
+   fun _ h => Or.inl h, fun _ => TopNew.refl _ _⟩
 
 /-- The tail of the edge branch of `fill_in_vertex_data`: `end_nested_scope`, then the remaining
 connections (`k`). `st1` is the state after `begin_nested_scope(v)`, `cdIn` the component data the
@@ -311,7 +331,7 @@ theorem edgeTail_sat {S : SchemaView} {re : Bool} {st st1 : St} {cd cdIn : CD} {
   -- the edge as a whole, seen from `st`
   have hpost1 : FillPost S re st cd st3 r.2.1 (r.2.2 = []) := by
     refine ⟨⟨h3inv, h3vs, ?_, ?_, ⟨ext, by rw [h3path, hext, h1path], hexact⟩, ?_, ?_, ?_⟩, ?_,
-      fun x hx => hr.verts x (hverts x hx), fun x hx => hr.vids x (hvids x hx), ?_, ?_⟩
+      fun x hx => hr.verts x (hverts x hx), fun x hx => hr.vids x (hvids x hx), ?_, ?_, ?_⟩
     · rw [h3nv]; exact Nat.le_trans h1nv hstep.nextVid
     · rw [h3ne]; exact Nat.le_trans h1ne hstep.nextEid
     · rw [h3out, ← h1out]; exact hstep.outLen
@@ -329,6 +349,13 @@ theorem edgeTail_sat {S : SchemaView} {re : Bool} {st st1 : St} {cd cdIn : CD} {
       rcases hr.flag e he with h | h
       · exact hflagIn e h
       · exact Or.inr h
+    · intro h
+      have := hr.tops h
+      refine ⟨by rw [h3out, this.1, h1out], fun o ho => ?_⟩
+      have ho' : o ∈ r.1.topMap := by simpa [St.topMap, h3out] using ho
+      rcases this.2 o ho' with h' | h'
+      · left; simpa [St.topMap, h1out] using h'
+      · right; exact h'
   have hout3 : 0 < st3.outStack.length := by
     rw [h3out]; exact Nat.lt_of_lt_of_le (by rw [h1out]; exact hout) hstep.outLen
   have hcur3 : ∃ v0 ∈ r.2.1.vertices, v0.vid = cur ∧ v0.postType = postType := by
